@@ -51,7 +51,16 @@ func (w *Walker) loop(s ast.Stmt, in []*State) []*State {
 			if rng != nil {
 				table = tables[si]
 			}
-			out = append(out, w.loopOne(s, rng, fr, body, table, st)...)
+			var keyID *ast.Ident
+			if fr != nil {
+				// counted loop `for i := 0; i < len(X); i++`: a range over X with key i
+				if id, x := countedFor(fr); id != nil {
+					if rs := w.eval(x, st); len(rs) == 1 && rs[0].t != nil && (rs[0].t.K == KField || rs[0].t.K == KLocal) {
+						table, keyID, st = rs[0].t, id, rs[0].st
+					}
+				}
+			}
+			out = append(out, w.loopOne(s, rng, fr, body, table, st, keyID)...)
 		}
 	}
 	return out
@@ -85,7 +94,7 @@ func (w *Walker) assignedLocals(body ast.Node, st *State) map[*types.Var][]ast.N
 	return res
 }
 
-func (w *Walker) loopOne(s ast.Stmt, rng *ast.RangeStmt, fr *ast.ForStmt, body *ast.BlockStmt, table *Term, st *State) []*State {
+func (w *Walker) loopOne(s ast.Stmt, rng *ast.RangeStmt, fr *ast.ForStmt, body *ast.BlockStmt, table *Term, st *State, keyID *ast.Ident) []*State {
 	loopID := fmt.Sprintf("L%d", w.A.Prog.Fset.Position(s.Pos()).Line)
 	// 1. pre-pass: discover what the body may kill
 	pre := st.clone()
@@ -96,6 +105,7 @@ func (w *Walker) loopOne(s ast.Stmt, rng *ast.RangeStmt, fr *ast.ForStmt, body *
 		probe.inl = &inlineCtx{}
 	}
 	probe.bindLoopVars(rng, table, pre, loopID)
+	probe.bindCountedKey(keyID, table, pre, loopID)
 	preKilled := map[string]int{}
 	pouts := probe.stmts(body.List, []*State{pre})
 	lc := probe.loops[0]
@@ -143,8 +153,9 @@ func (w *Walker) loopOne(s ast.Stmt, rng *ast.RangeStmt, fr *ast.ForStmt, body *
 	// 3. body walk with recording
 	b := h.clone()
 	w.bindLoopVars(rng, table, b, loopID)
+	w.bindCountedKey(keyID, table, b, loopID)
 	bodyIn := []*State{b}
-	if fr != nil && fr.Cond != nil {
+	if fr != nil && fr.Cond != nil && keyID == nil {
 		ts, fs := w.cond(fr.Cond, b)
 		bodyIn = ts
 		// after-loop state satisfies !cond
@@ -176,7 +187,7 @@ func (w *Walker) loopOne(s ast.Stmt, rng *ast.RangeStmt, fr *ast.ForStmt, body *
 	// 4. after-loop states
 	res := []*State{after}
 	// loop condition false for `for cond {}` loops
-	if fr != nil && fr.Cond != nil {
+	if fr != nil && fr.Cond != nil && keyID == nil {
 		_, fs := w.cond(fr.Cond, after)
 		res = fs
 	}
@@ -686,7 +697,9 @@ func (w *Walker) callInternal(call *ast.CallExpr, fn *FuncInfo, st *State, nres 
 			if ci < len(sum.Classes)-1 {
 				ns = s.clone()
 			}
-			for _, k := range cl.killList() {
+			kl := cl.killList()
+			sort.SliceStable(kl, func(i, j int) bool { return kl[i].kind&KillStable == 0 && kl[j].kind&KillStable != 0 })
+			for _, k := range kl {
 				loc := k.loc
 				if strings.HasPrefix(loc, "recv.") || loc == "recv" {
 					if recvs[i] == rootRecv {
@@ -980,4 +993,50 @@ func stmtCount(n ast.Node) int {
 		return true
 	})
 	return c
+}
+
+// countedFor recognises `for i := 0; i < len(X); i++` and returns i and X.
+func countedFor(fr *ast.ForStmt) (*ast.Ident, ast.Expr) {
+	as, ok := fr.Init.(*ast.AssignStmt)
+	if !ok || as.Tok != token.DEFINE || len(as.Lhs) != 1 || len(as.Rhs) != 1 {
+		return nil, nil
+	}
+	id, ok := as.Lhs[0].(*ast.Ident)
+	if !ok {
+		return nil, nil
+	}
+	if bl, ok := as.Rhs[0].(*ast.BasicLit); !ok || bl.Value != "0" {
+		return nil, nil
+	}
+	be, ok := fr.Cond.(*ast.BinaryExpr)
+	if !ok || be.Op != token.LSS {
+		return nil, nil
+	}
+	if l, ok := be.X.(*ast.Ident); !ok || l.Name != id.Name {
+		return nil, nil
+	}
+	call, ok := be.Y.(*ast.CallExpr)
+	if !ok || len(call.Args) != 1 {
+		return nil, nil
+	}
+	if f, ok := call.Fun.(*ast.Ident); !ok || f.Name != "len" {
+		return nil, nil
+	}
+	inc, ok := fr.Post.(*ast.IncDecStmt)
+	if !ok || inc.Tok != token.INC {
+		return nil, nil
+	}
+	if p, ok := inc.X.(*ast.Ident); !ok || p.Name != id.Name {
+		return nil, nil
+	}
+	return id, call.Args[0]
+}
+
+func (w *Walker) bindCountedKey(id *ast.Ident, table *Term, st *State, loopID string) {
+	if id == nil || table == nil {
+		return
+	}
+	k := mkTerm(KLocal, "rangekey:"+loopID+":"+table.S)
+	k.Reads = nil
+	w.bindLocal(id, k, st)
 }
